@@ -33,7 +33,7 @@ BUDGET = {"quick": 45.0, "thorough": 480.0}
 
 def shards(tier, seed):
     types = GR.ALL_TYPES
-    mult = 1 if tier == "quick" else 14
+    mult = 1 if tier == "quick" else 100
     return [{"types": types[i::16] + types[(i + 7) % 16::16], "n_rt": 110 * mult, "n_host": 300 * mult, "n_textmut": 150 * mult} for i in range(16)]
 
 
